@@ -108,6 +108,9 @@ fn main() {
                 shards: arg(&args, "--shards").and_then(|s| s.parse().ok()).unwrap_or(1),
                 no_shrink: args.iter().any(|a| a == "--no-shrink"),
             };
+            if args.iter().any(|a| a == "--no-inspect") {
+                fiv::slots::INSPECT_OFF.store(true, std::sync::atomic::Ordering::Relaxed);
+            }
             drivers!(driver.as_str(), run_hist, &opts)
         }
         Some("replay") => match engine::read_witness(args.get(2).map(|s| s.as_str()).unwrap_or("")) {
